@@ -37,6 +37,8 @@ type GenOpts struct {
 	Strings    bool
 	Funcs      int
 	SmallInts  bool // also use int8/uint8/uint32 locals
+	Ifaces     bool // append the interface feature block (mg_gen3.go)
+	NamedTypes bool // append the named / alias type feature block
 	Panics     bool // allow statements that may panic at run time (index out of range, nil map write ...)
 	FuncLits   bool
 	OneStruct  bool // exactly one struct type
@@ -1244,6 +1246,24 @@ func (g *Gen) Program(id string) *Prog {
 	body := g.stmts(4+g.r.Intn(6), g.o.MaxDepth)
 	body = append(body, g.printState())
 	g.pop()
+	// feature blocks: self-contained functions called from a random top-level position of Main
+	insert := func(s *S) {
+		at := g.r.Intn(len(body) + 1)
+		for at > 0 {
+			if k := body[at-1].K; k == "return" || k == "panic" {
+				at--
+			} else {
+				break
+			}
+		}
+		body = append(body[:at], append([]*S{s}, body[at:]...)...)
+	}
+	if g.o.Ifaces && g.r.Intn(2) == 0 {
+		insert(g.addIfaceDemo())
+	}
+	if g.o.NamedTypes && g.r.Intn(2) == 0 {
+		insert(g.addNamedTypesDemo())
+	}
 	g.prog.Funcs = append(g.prog.Funcs, &Func{Name: "Main", Body: body})
 	return g.prog
 }
